@@ -214,7 +214,7 @@ def conversion(chk, w):
         s = C.show_arg(nz, e[3][1])
         s = re.sub(r"alloc::vec::Vec::len\(&_\d+\)", "LEN", s)
         s = re.sub(r"it\d+\.next\(\)@Some\.0", "j", s)
-        idx[e[1]] = s
+        idx[e[1]] = forms.resort(s)
     base = "3*min(LEN, arg1.config.dict_n) + 3*arg1.config.dict_n*j"
     wantidx = {"-3 + " + base, "-2 + " + base, "-1 + " + base}
     chk.ob("R17.4", "offset-forms", set(idx.values()) == wantidx, "dictionary weights are read at %s; expected 3*dict_n*j + 3*(min(len,dict_n)-1) + {0,1,2}" % sorted(idx.values()), site=C.site(b), sample={"offsets": sorted(idx.values())})
